@@ -66,6 +66,14 @@ DEFAULT_BOUNDS = {
     r'from_utf8_lossy': 10,
 }
 
+# recursion bounds (by pretty function name): the recursive IppValue functions start at depth 1 and are
+# deepened on demand (a failing recursion unwinding assertion raises the bound)
+DEFAULT_RBOUNDS = {
+    r'^std::ptr::drop_glue::<ipp::value::IppValue>$': 1,
+    r'^<ipp::value::IppValue as std::clone::Clone>::clone$': 1,
+    r'^<ipp::value::IppValue as std::cmp::PartialEq>::eq$': 1,
+}
+
 ANNOT = re.compile(r'^\s*//@\s*(\{.*\})\s*$')
 FNDEF = re.compile(r'^\s*pub fn (\w+)\(inp: &mut Inp\)')
 
@@ -181,13 +189,27 @@ def build(prefix):
         lock.close()
 
 
+def kani_lib_nofree():
+    """Kani's C allocator shims with deallocation turned into a no-op (memory is leaked): `free` of a
+    pointer that symex cannot resolve to one object costs a case split over every heap object on every
+    drop. Regenerated from the installed kani_lib.c on every run."""
+    src = open(os.path.join(KANI_HOME, 'library/kani/kani_lib.c')).read()
+    out = re.sub(r'__KANI_assert\(__CPROVER_OBJECT_SIZE\(ptr\) == size,\s*"[^"]*"\);\s*free\(ptr\);', '/* verif: leak */', src)
+    out = out.replace('        free(ptr);\n', '        /* verif: leak */\n')
+    assert out.count('verif: leak') == 2, 'kani_lib.c layout changed'
+    assert 'free(' not in out.split('__rust_dealloc(uint8_t', 1)[1]
+    path = os.path.join(WORK, 'kani_lib_nofree.c')
+    write_if_changed(path, out)
+    return path
+
+
 def prepare(art):
     """the steps kani-driver performs between codegen and cbmc"""
     sym = art['symtab']
     base = sym[:-len('.symtab.out')]
     entry = base + '.entry.out'
     steps = [
-        ['goto-cc', sym, os.path.join(KANI_HOME, 'library/kani/kani_lib.c'), '-o', entry],
+        ['goto-cc', sym, kani_lib_nofree(), '-o', entry],
         ['goto-cc', entry, '--function', art['mangled'], '-o', entry],
         ['goto-instrument', '--add-library', '--no-malloc-may-fail', entry, entry],
         ['goto-instrument', '--generate-function-body-options', 'assert-false-assume-false',
@@ -359,7 +381,9 @@ def decide(h, art, tier_cfg, use_cache=True):
             if rx.search(fn) or rx.search(lid):
                 no = int(lid.rsplit('.', 1)[1])
                 want[(fn, no)] = max(want.get((fn, no), 0), v)
-    for pat, v in (h.get('rbounds') or {}).items():
+    rrules = dict(DEFAULT_RBOUNDS)
+    rrules.update(h.get('rbounds') or {})
+    for pat, v in rrules.items():
         rx = re.compile(pat)
         for fn in rec_by_fn:
             if rx.search(fn):
